@@ -317,6 +317,14 @@ func c05extraBuild() {
 		// a directory moved into its own subtree: EINVAL from the kernel itself on os-backed stacks
 		add("Rename/dir->own-subtree", dir, fsx.Step{K: "Rename", P: "a", P2: "a/c"})
 		add("Rename/dir->own-subtree-deeper", append(append([]fsx.Step(nil), dir...), fsx.Step{K: "Mkdir", P: "a/b", Perm: 0o755}), fsx.Step{K: "Rename", P: "a", P2: "a/b/c"})
+		// a directory moved into a SIBLING whose name merely begins with its own name (a, ab): not its own subtree - the
+		// destination decides (an existing file: ENOTDIR; below a file: ENOTDIR; a non-empty directory: ENOTEMPTY)
+		look := append(append([]fsx.Step(nil), dir...), fsx.Step{K: "Mkdir", P: "ab", Perm: 0o755}, fsx.Step{K: "WriteFullFile", P: "ab/f", Data: "x", Perm: 0o644}, fsx.Step{K: "Mkdir", P: "ab/d", Perm: 0o755}, fsx.Step{K: "WriteFullFile", P: "ab/d/in", Data: "x", Perm: 0o644})
+		add("Rename/dir->file-in-lookalike-sibling", look, fsx.Step{K: "Rename", P: "a", P2: "ab/f"})
+		add("Rename/dir->below-file-in-lookalike-sibling", look, fsx.Step{K: "Rename", P: "a", P2: "ab/f/x"})
+		add("Rename/dir->nonempty-dir-in-lookalike-sibling", look, fsx.Step{K: "Rename", P: "a", P2: "ab/d"})
+		add("Rename/dir->missing-parent-in-lookalike-sibling", look, fsx.Step{K: "Rename", P: "a", P2: "ab/nope/x"})
+		add("Rename/file-in-lookalike-sibling->dir", look, fsx.Step{K: "Rename", P: "ab/f", P2: "a"})
 		add("Symlink/file->root", file, fsx.Step{K: "Symlink", P: "a", P2: "."})
 		add("Mkdir/root", nil, fsx.Step{K: "Mkdir", P: ".", Perm: 0o755})
 		// Remove of the top itself: os.Remove(".") is EINVAL whatever the directory holds (the reference, which removes by
